@@ -11,7 +11,7 @@ package main
 //   * facts: the arguments of every padding-budget call, the shape of maxPaddingSizeWithTrafficPattern,
 //     the fragment loop header, the mtu passed to every NewSession.
 //
-// Output: lean/Mieru/Gen/Wire.lean, namespace Mieru.Gen.Wire. Anything that cannot be sliced or
+// Output: lean/Mieru/Gen/Wire.lean, namespace Mieru.Gen.UdpWire. Anything that cannot be sliced or
 // translated is emitted as `-- BROKEN-TIE <name>: <why>`.
 
 import (
@@ -23,10 +23,10 @@ import (
 	"strings"
 )
 
-func init() { register("Wire.lean", genWire) }
+func init() { register("UdpWire.lean", genUdpWire) }
 
-// rewriteExpr returns e with every sub-expression whose source text is a key of m replaced.
-func rewriteExpr(fset *token.FileSet, e ast.Expr, m map[string]ast.Expr) ast.Expr {
+// udpRewriteExpr returns e with every sub-expression whose source text is a key of m replaced.
+func udpRewriteExpr(fset *token.FileSet, e ast.Expr, m map[string]ast.Expr) ast.Expr {
 	if e == nil {
 		return nil
 	}
@@ -35,29 +35,29 @@ func rewriteExpr(fset *token.FileSet, e ast.Expr, m map[string]ast.Expr) ast.Exp
 	}
 	switch x := e.(type) {
 	case *ast.BinaryExpr:
-		return &ast.BinaryExpr{X: rewriteExpr(fset, x.X, m), Op: x.Op, Y: rewriteExpr(fset, x.Y, m), OpPos: x.OpPos}
+		return &ast.BinaryExpr{X: udpRewriteExpr(fset, x.X, m), Op: x.Op, Y: udpRewriteExpr(fset, x.Y, m), OpPos: x.OpPos}
 	case *ast.UnaryExpr:
-		return &ast.UnaryExpr{Op: x.Op, X: rewriteExpr(fset, x.X, m), OpPos: x.OpPos}
+		return &ast.UnaryExpr{Op: x.Op, X: udpRewriteExpr(fset, x.X, m), OpPos: x.OpPos}
 	case *ast.ParenExpr:
-		return &ast.ParenExpr{X: rewriteExpr(fset, x.X, m), Lparen: x.Lparen}
+		return &ast.ParenExpr{X: udpRewriteExpr(fset, x.X, m), Lparen: x.Lparen}
 	case *ast.CallExpr:
 		args := make([]ast.Expr, len(x.Args))
 		for i, a := range x.Args {
-			args[i] = rewriteExpr(fset, a, m)
+			args[i] = udpRewriteExpr(fset, a, m)
 		}
 		return &ast.CallExpr{Fun: x.Fun, Args: args, Lparen: x.Lparen}
 	}
 	return e
 }
 
-func ident(name string) *ast.Ident { return &ast.Ident{Name: name} }
-func isOne(name string) ast.Expr {
-	return &ast.BinaryExpr{X: ident(name), Op: token.EQL, Y: &ast.BasicLit{Kind: token.INT, Value: "1"}}
+func udpIdent(name string) *ast.Ident { return &ast.Ident{Name: name} }
+func udpIsOne(name string) ast.Expr {
+	return &ast.BinaryExpr{X: udpIdent(name), Op: token.EQL, Y: &ast.BasicLit{Kind: token.INT, Value: "1"}}
 }
 
-// sliceStmts keeps, recursively, the assignments to the wanted identifiers (and the `if`s around
+// udpSliceStmts keeps, recursively, the assignments to the wanted identifiers (and the `if`s around
 // them), rewritten with m; `x += e` becomes `x = x + e`. Other statements are dropped.
-func sliceStmts(fset *token.FileSet, ss []ast.Stmt, want map[string]bool, m map[string]ast.Expr) []ast.Stmt {
+func udpSliceStmts(fset *token.FileSet, ss []ast.Stmt, want map[string]bool, m map[string]ast.Expr) []ast.Stmt {
 	var out []ast.Stmt
 	for _, s := range ss {
 		switch x := s.(type) {
@@ -69,31 +69,31 @@ func sliceStmts(fset *token.FileSet, ss []ast.Stmt, want map[string]bool, m map[
 			if !ok || !want[id.Name] {
 				continue
 			}
-			rhs := rewriteExpr(fset, x.Rhs[0], m)
+			rhs := udpRewriteExpr(fset, x.Rhs[0], m)
 			switch x.Tok {
 			case token.ADD_ASSIGN:
-				rhs = &ast.BinaryExpr{X: ident(id.Name), Op: token.ADD, Y: rhs}
+				rhs = &ast.BinaryExpr{X: udpIdent(id.Name), Op: token.ADD, Y: rhs}
 			case token.SUB_ASSIGN:
-				rhs = &ast.BinaryExpr{X: ident(id.Name), Op: token.SUB, Y: rhs}
+				rhs = &ast.BinaryExpr{X: udpIdent(id.Name), Op: token.SUB, Y: rhs}
 			case token.ASSIGN, token.DEFINE:
 			default:
-				rhs = &ast.CallExpr{Fun: ident("unsupportedAssignOp_" + x.Tok.String())}
+				rhs = &ast.CallExpr{Fun: udpIdent("unsupportedAssignOp_" + x.Tok.String())}
 			}
-			out = append(out, &ast.AssignStmt{Lhs: []ast.Expr{ident(id.Name)}, Tok: token.ASSIGN, Rhs: []ast.Expr{rhs}, TokPos: x.TokPos})
+			out = append(out, &ast.AssignStmt{Lhs: []ast.Expr{udpIdent(id.Name)}, Tok: token.ASSIGN, Rhs: []ast.Expr{rhs}, TokPos: x.TokPos})
 		case *ast.IfStmt:
-			body := sliceStmts(fset, x.Body.List, want, m)
+			body := udpSliceStmts(fset, x.Body.List, want, m)
 			var els []ast.Stmt
 			if eb, ok := x.Else.(*ast.BlockStmt); ok {
-				els = sliceStmts(fset, eb.List, want, m)
+				els = udpSliceStmts(fset, eb.List, want, m)
 			} else if ei, ok := x.Else.(*ast.IfStmt); ok {
-				els = sliceStmts(fset, []ast.Stmt{ei}, want, m)
+				els = udpSliceStmts(fset, []ast.Stmt{ei}, want, m)
 			}
 			if len(body) == 0 && len(els) == 0 {
 				continue
 			}
-			n := &ast.IfStmt{If: x.If, Cond: rewriteExpr(fset, x.Cond, m), Body: &ast.BlockStmt{List: body}}
+			n := &ast.IfStmt{If: x.If, Cond: udpRewriteExpr(fset, x.Cond, m), Body: &ast.BlockStmt{List: body}}
 			if x.Init != nil {
-				n.Cond = &ast.CallExpr{Fun: ident("unsupportedIfInit")}
+				n.Cond = &ast.CallExpr{Fun: udpIdent("unsupportedIfInit")}
 			}
 			if len(els) > 0 {
 				n.Else = &ast.BlockStmt{List: els}
@@ -104,7 +104,7 @@ func sliceStmts(fset *token.FileSet, ss []ast.Stmt, want map[string]bool, m map[
 	return out
 }
 
-func findFunc(f *ast.File, recv, name string) *ast.FuncDecl {
+func udpFindFunc(f *ast.File, recv, name string) *ast.FuncDecl {
 	for _, d := range f.Decls {
 		fd, ok := d.(*ast.FuncDecl)
 		if !ok || fd.Name.Name != name || fd.Body == nil {
@@ -122,7 +122,7 @@ func findFunc(f *ast.File, recv, name string) *ast.FuncDecl {
 
 // branches of writeOneSegment: the bodies of `if ss, ok := toSessionStruct(…); ok {…} else if das, ok :=
 // toDataAckStruct(…); ok {…}`
-func segmentBranches(fd *ast.FuncDecl) (session, data *ast.BlockStmt) {
+func udpSegmentBranches(fd *ast.FuncDecl) (session, data *ast.BlockStmt) {
 	ast.Inspect(fd.Body, func(n ast.Node) bool {
 		is, ok := n.(*ast.IfStmt)
 		if !ok || is.Init == nil {
@@ -146,8 +146,8 @@ func segmentBranches(fd *ast.FuncDecl) (session, data *ast.BlockStmt) {
 	return
 }
 
-// makeLen finds `dataToSend := make([]byte, EXPR)` in a block and returns EXPR.
-func makeLen(b *ast.BlockStmt) ast.Expr {
+// udpMakeLen finds `dataToSend := make([]byte, EXPR)` in a block and returns EXPR.
+func udpMakeLen(b *ast.BlockStmt) ast.Expr {
 	var res ast.Expr
 	for _, s := range b.List {
 		as, ok := s.(*ast.AssignStmt)
@@ -166,10 +166,10 @@ func makeLen(b *ast.BlockStmt) ast.Expr {
 	return res
 }
 
-func genWire(repo string, consts []constKV) string {
+func genUdpWire(repo string, consts []constKV) string {
 	var sb strings.Builder
 	sb.WriteString("import Mieru.Gen.Consts\nimport Mieru.Gen.Arith\n-- GENERATED by tools/goextract (c14wire.go) from the repository's current working tree; do not edit\n")
-	sb.WriteString("set_option linter.unusedVariables false\nnamespace Mieru.Gen.Wire\n")
+	sb.WriteString("set_option linter.unusedVariables false\nnamespace Mieru.Gen.UdpWire\n")
 	fset := token.NewFileSet()
 	t := &tr{fset: fset, consts: map[string]string{}, funcs: map[string]*fnInfo{}, repo: repo, dumped: map[string]bool{}}
 	for _, c := range consts {
@@ -226,23 +226,23 @@ func genWire(repo string, consts []constKV) string {
 	}
 	common := func() map[string]ast.Expr {
 		return map[string]ast.Expr{
-			"len(plaintextMetadata)": ident("MetadataLength"),
-			"len(seg.payload)":       ident("payload"),
-			"len(padding)":           ident("pad"),
-			"len(padding1)":          ident("p1"),
-			"len(padding2)":          ident("p2"),
-			"int(das.payloadLen)":    ident("wire"),
-			"int(ss.payloadLen)":     ident("wire"),
-			"lowEntropy":             isOne("lowEntropy"),
+			"len(plaintextMetadata)": udpIdent("MetadataLength"),
+			"len(seg.payload)":       udpIdent("payload"),
+			"len(padding)":           udpIdent("pad"),
+			"len(padding1)":          udpIdent("p1"),
+			"len(padding2)":          udpIdent("p2"),
+			"int(das.payloadLen)":    udpIdent("wire"),
+			"int(ss.payloadLen)":     udpIdent("wire"),
+			"lowEntropy":             udpIsOne("lowEntropy"),
 		}
 	}
 	pk := under{rel: "pkg/protocol/underlay_packet.go", recv: "PacketUnderlay", prefix: "packet", m: common()}
-	pk.m["blockCipher.NonceSize()"] = ident("nonceSize")
-	pk.m["blockCipher.Overhead()"] = ident("aeadOverhead")
+	pk.m["blockCipher.NonceSize()"] = udpIdent("nonceSize")
+	pk.m["blockCipher.Overhead()"] = udpIdent("aeadOverhead")
 	st := under{rel: "pkg/protocol/underlay_stream.go", recv: "StreamUnderlay", prefix: "stream", m: common(), extraParams: []string{"firstWrite"}}
-	st.m["t.send.NonceSize()"] = ident("nonceSize")
-	st.m["t.send.Overhead()"] = ident("aeadOverhead")
-	st.m["firstWrite"] = isOne("firstWrite")
+	st.m["t.send.NonceSize()"] = udpIdent("nonceSize")
+	st.m["t.send.Overhead()"] = udpIdent("aeadOverhead")
+	st.m["firstWrite"] = udpIsOne("firstWrite")
 	want := map[string]bool{"encryptedMetadataLen": true, "encryptedPayloadLen": true, "wirePayloadLen": true}
 	var padCalls []string
 	for _, u := range []under{pk, st} {
@@ -250,12 +250,12 @@ func genWire(repo string, consts []constKV) string {
 		if f == nil {
 			continue
 		}
-		fd := findFunc(f, u.recv, "writeOneSegment")
+		fd := udpFindFunc(f, u.recv, "writeOneSegment")
 		if fd == nil {
 			fmt.Fprintf(&sb, "\n-- BROKEN-TIE %sWriteOneSegment: %s.writeOneSegment not found in %s\n", u.prefix, u.recv, u.rel)
 			continue
 		}
-		sess, data := segmentBranches(fd)
+		sess, data := udpSegmentBranches(fd)
 		if sess == nil || data == nil {
 			fmt.Fprintf(&sb, "\n-- BROKEN-TIE %sWriteOneSegment: the toSessionStruct / toDataAckStruct branches were not found\n", u.prefix)
 			continue
@@ -268,7 +268,7 @@ func genWire(repo string, consts []constKV) string {
 			{u.prefix + "SessionSegLen", sess, append([]string{"payload", "pad"}, u.extraParams...)},
 			{u.prefix + "DataSegLen", data, append([]string{"payload", "wire", "p1", "p2", "lowEntropy"}, u.extraParams...)},
 		} {
-			ml := makeLen(br.b)
+			ml := udpMakeLen(br.b)
 			if ml == nil {
 				fmt.Fprintf(&sb, "\n-- BROKEN-TIE %s: no `dataToSend := make([]byte, …)` in the branch\n", br.name)
 				continue
@@ -283,8 +283,8 @@ func genWire(repo string, consts []constKV) string {
 				}
 				before = append(before, s)
 			}
-			body := sliceStmts(fset, before, want, u.m)
-			body = append(body, &ast.ReturnStmt{Results: []ast.Expr{rewriteExpr(fset, ml, u.m)}})
+			body := udpSliceStmts(fset, before, want, u.m)
+			body = append(body, &ast.ReturnStmt{Results: []ast.Expr{udpRewriteExpr(fset, ml, u.m)}})
 			emit(br.name, fmt.Sprintf("%s, %s.writeOneSegment: length of `dataToSend` (%s)", u.rel, u.recv, nodeString(fset, ml)), br.params, body, "int")
 			// the padding-budget calls of the branch
 			ast.Inspect(br.b, func(n ast.Node) bool {
@@ -297,7 +297,7 @@ func genWire(repo string, consts []constKV) string {
 					for _, a := range ce.Args {
 						args = append(args, nodeString(fset, a))
 					}
-					padCalls = append(padCalls, fmt.Sprintf("  (%q, %s)", br.name, leanStrList(args)))
+					padCalls = append(padCalls, fmt.Sprintf("  (%q, %s)", br.name, udpLeanStrList(args)))
 				}
 				return true
 			})
@@ -308,15 +308,15 @@ func genWire(repo string, consts []constKV) string {
 	// ---- Session.writeChunk / Session.Write -----------------------------------------------------
 	if f := parse("pkg/protocol/session.go"); f != nil {
 		m := map[string]ast.Expr{
-			"len(b)":              ident("len"),
-			"len(ptr)":            ident("lenPtr"),
-			"s.transportProtocol": ident("transport"),
-			"sendLowEntropy":      isOne("sendLowEntropy"),
+			"len(b)":              udpIdent("len"),
+			"len(ptr)":            udpIdent("lenPtr"),
+			"s.transportProtocol": udpIdent("transport"),
+			"sendLowEntropy":      udpIsOne("sendLowEntropy"),
 		}
-		if fd := findFunc(f, "Session", "writeChunk"); fd != nil {
+		if fd := udpFindFunc(f, "Session", "writeChunk"); fd != nil {
 			// nFragment: top-level statements of the function
-			body := sliceStmts(fset, fd.Body.List, map[string]bool{"nFragment": true}, m)
-			body = append(body, &ast.ReturnStmt{Results: []ast.Expr{ident("nFragment")}})
+			body := udpSliceStmts(fset, fd.Body.List, map[string]bool{"nFragment": true}, m)
+			body = append(body, &ast.ReturnStmt{Results: []ast.Expr{udpIdent("nFragment")}})
 			emit("nFragment", "pkg/protocol/session.go, Session.writeChunk: number of fragments of one chunk of `len` bytes", []string{"len", "fragmentSize"}, body, "int")
 			// the fragment loop
 			var loop *ast.ForStmt
@@ -338,8 +338,8 @@ func genWire(repo string, consts []constKV) string {
 					}
 					before = append(before, s)
 				}
-				pl := sliceStmts(fset, before, map[string]bool{"partLen": true}, m)
-				pl = append(pl, &ast.ReturnStmt{Results: []ast.Expr{ident("partLen")}})
+				pl := udpSliceStmts(fset, before, map[string]bool{"partLen": true}, m)
+				pl = append(pl, &ast.ReturnStmt{Results: []ast.Expr{udpIdent("partLen")}})
 				emit("partLen", "pkg/protocol/session.go, Session.writeChunk: length of the fragment cut in iteration `i` when `lenPtr` bytes remain", []string{"fragmentSize", "lenPtr", "i", "transport"}, pl, "int")
 				// loop shape facts
 				var shape []string
@@ -383,7 +383,7 @@ func genWire(repo string, consts []constKV) string {
 			}
 			// the chunking of Write: `sizeToSend := mathext.Min(len(b), maxPDU)` and the writeChunk guard
 			var chunk []string
-			if wd := findFunc(f, "Session", "Write"); wd != nil {
+			if wd := udpFindFunc(f, "Session", "Write"); wd != nil {
 				ast.Inspect(wd.Body, func(n ast.Node) bool {
 					if as, ok := n.(*ast.AssignStmt); ok && len(as.Lhs) == 1 && nodeString(fset, as.Lhs[0]) == "sizeToSend" {
 						chunk = append(chunk, fmt.Sprintf("%q", nodeString(fset, as)))
@@ -404,7 +404,7 @@ func genWire(repo string, consts []constKV) string {
 			sb.WriteString("\n-- BROKEN-TIE nFragment: Session.writeChunk not found\n")
 		}
 		// the piggyback decision of Write: the `if` whose body assigns …payloadLen
-		if wd := findFunc(f, "Session", "Write"); wd != nil {
+		if wd := udpFindFunc(f, "Session", "Write"); wd != nil {
 			var cond ast.Expr
 			n := 0
 			ast.Inspect(wd.Body, func(nd ast.Node) bool {
@@ -426,7 +426,7 @@ func genWire(repo string, consts []constKV) string {
 				fmt.Fprintf(&sb, "\n-- BROKEN-TIE openPayloadLen: expected exactly one `if … { ….payloadLen = uint16(len(b)) … }` in Session.Write, found %d\n", n)
 			} else {
 				body := []ast.Stmt{
-					&ast.IfStmt{Cond: rewriteExpr(fset, cond, m), Body: &ast.BlockStmt{List: []ast.Stmt{&ast.ReturnStmt{Results: []ast.Expr{ident("len")}}}}},
+					&ast.IfStmt{Cond: udpRewriteExpr(fset, cond, m), Body: &ast.BlockStmt{List: []ast.Stmt{&ast.ReturnStmt{Results: []ast.Expr{udpIdent("len")}}}}},
 					&ast.ReturnStmt{Results: []ast.Expr{&ast.BasicLit{Kind: token.INT, Value: "0"}}},
 				}
 				emit("openPayloadLen", "pkg/protocol/session.go, Session.Write: payload length of the open session request for a first write of `len` bytes ("+nodeString(fset, cond)+")", []string{"sendLowEntropy", "len"}, body, "int")
@@ -438,7 +438,7 @@ func genWire(repo string, consts []constKV) string {
 
 	// ---- maxPaddingSizeWithTrafficPattern: its shape as facts -----------------------------------
 	if f := parse("pkg/protocol/padding.go"); f != nil {
-		if fd := findFunc(f, "", "maxPaddingSizeWithTrafficPattern"); fd != nil {
+		if fd := udpFindFunc(f, "", "maxPaddingSizeWithTrafficPattern"); fd != nil {
 			var shape []string
 			var walk func(ss []ast.Stmt, ind string)
 			walk = func(ss []ast.Stmt, ind string) {
@@ -500,6 +500,6 @@ func genWire(repo string, consts []constKV) string {
 	}
 	fmt.Fprintf(&sb, "\n/-- (caller, constructor, expression passed as mtu) of every session construction in pkg/protocol -/\ndef sessionMTUs : List (String × String × String) := [\n%s\n]\n", strings.Join(news, ",\n"))
 
-	sb.WriteString("\nend Mieru.Gen.Wire\n")
+	sb.WriteString("\nend Mieru.Gen.UdpWire\n")
 	return sb.String()
 }
